@@ -434,6 +434,17 @@ impl Module for M {
             let w = if rng.chance(2, 3) { rng.range(1, 12) } else { rng.range(1, wmax) };
             emit(format!("thick.points {} {} {} {} {}", x0, y0, x0 + dx, y0 + dy, w));
         }
+        // very long lines: a major delta above i16::MAX (round-4 seed C17-r4-1 "hardened" the thick line against
+        // overflow by halving deltas above 0x7FFF, which tilts the stroke; nothing longer than 8000 was generated).
+        // The squared length stays below 2^31 (major <= 46000, minor <= 3000), as the real i32 arithmetic needs.
+        let nlong = if tier == Tier::Quick { 16 } else { 200 };
+        for i in 0..nlong {
+            let major = rng.range(32768, 46000) * if rng.chance(1, 2) { 1 } else { -1 };
+            let minor = match i % 4 { 0 => 0, 1 => rng.range(-7, 7), _ => rng.range(-3000, 3000) };
+            let (dx, dy) = if i % 2 == 0 { (major, minor) } else { (minor, major) };
+            let (x0, y0) = (rng.range(-20000, 20000) - dx / 2, rng.range(-20000, 20000) - dy / 2);
+            emit(format!("thick.points {} {} {} {} {}", x0, y0, x0 + dx, y0 + dy, 1 + i % 3));
+        }
         // wide strokes (w in 13..=120): the known finding C17:thick-band:wide-stroke-overcount shows from
         // w = 34; every other claim of the sentence is checked on them as well
         for (x0, y0, x1, y1, w) in WIDE_FIXED {
